@@ -1,6 +1,7 @@
 import PgFdr.Proofs.C10
 import PgFdr.Proofs.C10Rescue
 import PgFdr.Proofs.C10Hash
+import PgFdr.Proofs.C10Glue
 import Mathlib.Algebra.Order.Field.Power
 
 /-!
@@ -995,5 +996,156 @@ example : ∀ p ∈ pairUpD true [exNsDigest] [exNsRows], p.1.lookup "DEFGHIWW" 
 
 example : ∀ x ∈ C09.dbRecords .firstSpace exNsParams exNsFiles, containsSub "DEFGHIWW".toList x.2 = false := by
   decide +kernel
+
+/-! ## The glue of the pipeline entry points: parameter list → command-line arguments → parameter list
+
+`pipeline.run_picked_group_fdr` / `run_merge_pout_remap` / `run_andromeda_to_pin` receive one `DigestionParams`
+object per evidence file and call the tools with the arguments `digestion_params_list_to_arg_list` renders
+(`toArgv`, `toArgLists`, `Model/C10Glue.lean`); the tool parses them back with `get_digestion_params_list`
+(`C09.digestionParamsList`), builds one digest per parameter set and zips digests with evidence files.  "Several
+evidence files each with its own digestion parameters" therefore rests on this round trip being the identity: one
+value too few in one option and a file is remapped through another file's digest, or dropped by the `zip`. -/
+
+open PgFdr.C09 (Params) in
+/-- "… taken from the in-silico digest [of that file] when the method remaps": the parameter sets that arrive in
+    the tool are the caller's, in the caller's order — for every non-empty list (an empty list is refused by
+    argparse, `nargs="+"`) of objects as their constructor left them, whatever values repeat.  The one attribute
+    the arguments do not carry is `db`: it is decided by the flag `--fasta_contains_decoys` next to them (`cd`; the
+    pipeline functions never pass it, so a set arrives with `db = concat`). -/
+theorem params_round_trip (cd : Bool) (ps : List Params) (_hne : ps ≠ []) (hc : ∀ p ∈ ps, Constructed p) :
+    C09.digestionParamsList (toArgLists cd ps) = .ok (ps.map (withDb cd)) :=
+  throughGlue_ok cd ps hc
+
+open PgFdr.C09 (Params) in
+/-- … hence as many parameter sets arrive as evidence files were given one for, and the i-th file gets the i-th:
+    every rendered attribute of the i-th arriving set is that of the caller's i-th object -/
+theorem params_round_trip_pointwise (cd : Bool) (ps : List Params) (hne : ps ≠ []) (hc : ∀ p ∈ ps, Constructed p) :
+    ∃ qs, throughGlue cd ps = .ok qs ∧ qs.length = ps.length ∧
+      ∀ i : Nat, qs[i]? = (ps[i]?).map (withDb cd) ∧
+        ∀ q p, qs[i]? = some q → ps[i]? = some p →
+          q.enzyme = p.enzyme ∧ q.digestion = p.digestion ∧ q.minL = p.minL ∧ q.maxL = p.maxL ∧ q.mc = p.mc ∧
+          q.special = p.special ∧ q.met = p.met ∧ q.useHash = p.useHash ∧
+          q.db = (if cd then .target else .concat) := by
+  refine ⟨ps.map (withDb cd), params_round_trip cd ps hne hc, by simp, ?_⟩
+  intro i
+  refine ⟨by simp, ?_⟩
+  intro q p hq hp
+  rw [List.getElem?_map, hp] at hq
+  cases hq
+  simp [withDb]
+
+open PgFdr.C09 (Params) in
+/-- the list of digests the tool builds when called through the glue is the list built from the caller's parameter
+    list directly: as many digests as parameter sets, the i-th being `C09.mapOf` of the i-th set (no union, no
+    shift) -/
+theorem glue_maps (cd : Bool) (ps : List Params) (hne : ps ≠ []) (hc : ∀ p ∈ ps, Constructed p)
+    (geneLevel usePseudo useUniprot : Bool) (fasta : List (List C09.Str)) (hf : fasta ≠ [])
+    (groups : Option (List (List C09.Str))) :
+    C09.pepMapsFromArgs (toArgLists cd ps) geneLevel usePseudo useUniprot fasta [] groups =
+      C09.liftErr (C09.pepMaps (C09.selectParse geneLevel usePseudo useUniprot) fasta groups (ps.map (withDb cd))) ∧
+    ∀ ms, C09.pepMaps (C09.selectParse geneLevel usePseudo useUniprot) fasta groups (ps.map (withDb cd)) = .ok ms →
+      ms.length = ps.length ∧
+      ∀ i : Nat, (ms[i]?).map Except.ok =
+        (ps[i]?).map (fun p => C09.mapOf (C09.selectParse geneLevel usePseudo useUniprot) fasta groups (withDb cd p)) := by
+  constructor
+  · unfold C09.pepMapsFromArgs
+    rw [params_round_trip cd ps hne hc]
+    cases fasta with
+    | nil => exact absurd rfl hf
+    | cons f fs => simp [C09.pepMapsTop]
+  · intro ms hms
+    refine ⟨by simpa using pepMaps_length _ fasta groups _ ms hms, ?_⟩
+    intro i
+    rw [pepMaps_get _ fasta groups _ ms hms i, List.getElem?_map, Option.map_map]
+    rfl
+
+open PgFdr.C09 (Params) in
+/-- In C10's own terms: a remapping method run through `pipeline.run_picked_group_fdr` on `n` evidence files with
+    `n` parameter sets ingests exactly what the property demands — every file read through the digest of ITS OWN
+    parameter set (`ingestOwnDigests`: `zip` of the per-set digests with the files, all `n` pairs), refusals
+    included; all theorems above (`best_psm_digest`, `unknown_peptides_skipped_digest`, … through
+    `digest_ingest_is_dict_ingest`) then speak about these pairs. -/
+theorem glue_ingestion (T : Transforms) (mode : Mode) (hm : mode.remap = true) (cd : Bool) (ps : List Params)
+    (hne : ps ≠ []) (hc : ∀ p ∈ ps, Constructed p) (geneLevel usePseudo useUniprot : Bool)
+    (fasta : List (List C09.Str)) (hf : fasta ≠ []) (groups : Option (List (List C09.Str)))
+    (files : List (List RawRow)) (hlen : files.length = ps.length) :
+    ingestViaGlue T mode cd ps geneLevel usePseudo useUniprot fasta groups files =
+      ingestOwnDigests T mode (C09.selectParse geneLevel usePseudo useUniprot) fasta groups (ps.map (withDb cd)) files := by
+  unfold ingestViaGlue toolIngest ingestOwnDigests
+  rw [(glue_maps cd ps hne hc geneLevel usePseudo useUniprot fasta hf groups).1]
+  cases hms : C09.pepMaps (C09.selectParse geneLevel usePseudo useUniprot) fasta groups (ps.map (withDb cd)) with
+  | error e => rfl
+  | ok ms =>
+    have hl : ms.length = ps.length := by simpa using pepMaps_length _ fasta groups _ ms hms
+    simp only [C09.liftErr]
+    unfold ingestFilesCheckedD
+    rw [hm, pairUpD_eq_zip _ _ (by simp [hl, hlen])]
+
+/-! ### Non-vacuity for the glue section
+
+Three evidence files searched with trypsin, trypsin, lys-c (everything else equal) — values partly repeated, the
+shape in which a list "with repeated values collapsed" has neither length one nor length three. -/
+
+private def exTryp : C09.Params := C09.mkParams "trypsin" "full" 5 60 0 "KR" false
+private def exLysC : C09.Params := C09.mkParams "lys-c" "full" 5 60 0 "KR" false
+private def exNoSpecial : C09.Params := C09.mkParams "no_enzyme" "full" 6 30 1 "none" true
+
+example : ∀ p ∈ [exTryp, exTryp, exLysC, exNoSpecial], Constructed p := by
+  intro p hp
+  simp only [List.mem_cons, List.not_mem_nil, or_false] at hp
+  rcases hp with rfl | rfl | rfl | rfl
+  exacts [⟨_, _, _, _, _, _, _, rfl⟩, ⟨_, _, _, _, _, _, _, rfl⟩, ⟨_, _, _, _, _, _, _, rfl⟩, ⟨_, _, _, _, _, _, _, rfl⟩]
+
+/-- what `digestion_params_list_to_arg_list` returns: one value per file, repeated values repeated; no special
+    residues are rendered as the empty string -/
+example : toArgv [exTryp, exTryp, exLysC] =
+    ["--min-length", "5", "5", "5", "--max-length", "60", "60", "60", "--cleavages", "0", "0", "0",
+     "--enzyme", "trypsin", "trypsin", "lys-c", "--digestion", "full", "full", "full",
+     "--special-aas", "KR", "KR", "KR"] := by decide +kernel
+
+example : toArgv [exNoSpecial] =
+    ["--min-length", "6", "--max-length", "30", "--cleavages", "1", "--enzyme", "no_enzyme", "--digestion", "none",
+     "--special-aas", ""] := by decide +kernel
+
+/-- the round trip on the pattern, and on a set whose `db = target` is not carried -/
+example : (throughGlue false [exTryp, exTryp, exLysC]).toOption = some [exTryp, exTryp, exLysC] := by decide +kernel
+example : (throughGlue false [exTryp, exNoSpecial]).toOption = some [exTryp, withDb false exNoSpecial] := by
+  decide +kernel
+example : (throughGlue true [exNoSpecial]).toOption = some [exNoSpecial] := by decide +kernel
+
+/-- what goes wrong without it: with the repeated enzyme passed once (`trypsin lys-c` for three files) the tool
+    refuses; with EVERY option collapsed the same way only two parameter sets arrive -/
+example : (C09.digestionParamsList { (toArgLists false [exTryp, exTryp, exLysC]) with enzyme := ["trypsin", "lys-c"] }).toOption
+    = none := by decide +kernel
+private def exCollapsed : C09.ArgLists where
+  enzyme := ["trypsin", "lys-c"]
+  digestion := ["full"]
+  minL := [5]
+  maxL := [60]
+  mc := [0]
+  special := ["KR"]
+  containsDecoys := false
+
+example : (C09.digestionParamsList exCollapsed).toOption = some [exTryp, exLysC] := by decide +kernel
+
+/-- ingestion through the glue on the pattern: `PROTC = IIIIKLLRLLK`; `LLRLLK` is a lys-c peptide only, `IIIIK` is in
+    every digest, `LLR` is too short.  File 3 (lys-c) contributes `LLRLLK`; read through a trypsin digest it would be
+    skipped, and a list of two parameter sets would drop file 3 altogether. -/
+private def exGlueFasta : List (List C09.Str) := [[">PROTC".toList, "IIIIKLLRLLK".toList]]
+private def exGlueFiles : List (List RawRow) :=
+  [ [ { pep := "_IIIIK_", mod := "", score := some (1/50), prot := ["x"], decoy := false },
+      { pep := "_LLRLLK_", mod := "", score := some (1/10000), prot := ["x"], decoy := false } ],
+    [ { pep := "_IIIIK_", mod := "", score := some (1/100), prot := ["x"], decoy := false } ],
+    [ { pep := "_LLRLLK_", mod := "", score := some (1/500), prot := ["x"], decoy := false },
+      { pep := "_IIIIK_", mod := "", score := some (1/1000), prot := ["x"], decoy := false } ] ]
+
+example : ingestViaGlue exactT { format := .maxquant, remap := true } false [exTryp, exTryp, exLysC] false false false
+      exGlueFasta none exGlueFiles =
+    .ok [ { peptide := "IIIIK", pep := 1/1000, proteins := ["PROTC"] },
+          { peptide := "LLRLLK", pep := 1/500, proteins := ["PROTC"] } ] := by decide +kernel
+
+example : ingestOwnDigests exactT { format := .maxquant, remap := true } .firstSpace exGlueFasta none
+      [exTryp, exTryp] exGlueFiles =
+    .ok [ { peptide := "IIIIK", pep := 1/100, proteins := ["PROTC"] } ] := by decide +kernel
 
 end PgFdr.C10
